@@ -180,6 +180,8 @@ def _worker(job):
         if job.opts.get('monitor_alloc'):
             ex.monitor_alloc = True
             ex.escape_lines = _ESCAPES
+        if job.opts.get('fx_model'):
+            ses.use_fx_model()
         if job.opts.get('bits_intrinsics'):
             ses.use_bits_intrinsics()
         if job.opts.get('no_float_overflow'):
@@ -458,6 +460,10 @@ class Check:
             funcs.update(r.get('funcs', ()))
         vac = [k for k in getattr(self, 'must_reach', []) if not reach.get(k)]
         okc, nval = self.validate_samples() if not self.violations else (0, 0)
+        from gosym.driver import run_refvalidate
+        refval = run_refvalidate(full=(self.tier != 'quick')) if self.pid != 'C18' else {'ok': True, 'summary': 'not used'}
+        if not refval['ok']:
+            self.notes.append('REFERENCE VALIDATION FAILED (oracle disagrees with the standard library on this tree): ' + refval['summary'])
         self.sample_stats = (okc, nval)
         fenc = []
         for f in sorted(funcs):
@@ -475,6 +481,7 @@ class Check:
             'samples': samples[:25] or [{'note': 'no passing sample'}],
             'functions_encoded': fenc,
             'bounds': self.bounds,
+            'reference_validation_vs_stdlib': refval,
             'depth_limit_scaling': ({'scaled_to': self.scale_depth, 'comparison_sites_rewritten': getattr(self, 'scaled_sites', [])} if getattr(self, 'scale_depth', None) else None),
             'jobs': [{'job': r['label'], 'ok': r['ok'], 'error': r['error'], 'wall_s': round(r['wall_s'], 2),
                       'path_classes': r.get('classes'), 'inputs_covered': str(r.get('inputs_covered')),
